@@ -5,6 +5,9 @@ import YarlProofs.C13
 Continued in C13HeadlineMore.lean (theorems that need modules which import this file): the decoded accessors,
 children made from texts with '/', the `encoded=True` and n-ary `joinpath`, `parent` of the results,
 `with_suffix` → `suffix`, and `suffix` vs `suffixes` (C13More.lean).
+Continued in C13HeadlineMore3.lean (C13More2.lean: name / parent parts of `u / s` over an old path WITH dot segments,
+`joinpath(a, b) = u / pjoin(a, b)`, the exact guard of `joinpath(a, b) = joinpath(a).joinpath(b)`, and `u / o` against
+`u.joinpath(o)` for an arbitrary Python object, model-level).
 
 Property statement (verbatim):
 
@@ -224,10 +227,26 @@ GAPS:
     is the (quoted, and decoded: the plain) last segment of `s`, the parent parts are the old parts without a
     trailing empty one plus the other segments; the same for any number of arguments in either `encoded` mode, in
     terms of `argSegs` (with `encoded=True` the name is the last segment of the last argument, verbatim).
-    Remains open: under an authority all of this is guarded by "no dot segment in the old path and in the
-    arguments" (when `_make_child` normalises, name and parent are those of the normalised path: C15 says what
-    that path is, no C13 statement about name/parent then), and by "no rootless path next to an authority";
-    a single argument "." / ".." is excluded by the property text itself.
+    FURTHER PARTLY CLOSED by C13_child_name_any_old_path, C13_child_parent_parts_agree,
+    C13_child_name_dotted_old_path_instances (C13More2.lean), see C13_headline_child_name_any_old_path,
+    C13_headline_child_parent_parts_agree, C13_headline_child_parent_parts_fails_for_dotted_old_path
+    (C13HeadlineMore3.lean).  Proved, for ONE plain argument `s` (Python string without lone surrogates, non-empty,
+    no '/', quote(s) not "." / ".."), `encoded=False`, with NO hypothesis on the old path: the raw name of `u / s`
+    is quote(s); the parent parts are the old parts without a trailing empty segment when nothing is normalised
+    (no authority, or no '.' in quote(s); there "no rootless path next to an authority" is still a hypothesis), and
+    when `_make_child` normalises (authority and a '.' in quote(s), e.g. "c.txt") they are the parts of the
+    NORMALISED old path ("/" + final stack of `normalize_path_segments` on the old segments; no hypothesis, a rootless
+    path next to an authority included); the two descriptions agree when the old path has no dot segments.  So
+    "parent parts equal to u's parts without a trailing empty segment" is FALSE for an old path with dot segments
+    (under an authority: `encoded=True` only) and a '.' in `s`: `URL("http://h/a/../b", encoded=True) / "c.txt"` has
+    parts ("/", "b", "c.txt") — C13_headline_child_parent_parts_fails_for_dotted_old_path.
+    STILL OPEN: the same for an argument WITH '/' whose segments include "." / "..", for several arguments, and for
+    `encoded=True` arguments (there the guard "no dot segment in the old path and in the arguments" of
+    C13_headline_child_slash / C13_headline_joinpath_parts remains; C15 says what the normalised path is, no C13
+    statement about name/parent then); the any-old-path statement is on the RAW accessors only (no decoded
+    restatement, no statement about the URL operation `parent` of the result in the normalising case: item 4 keeps
+    its guards); "no rootless path next to an authority" in the non-normalising case; a single argument
+    "." / ".." is excluded by the property text itself.
  3. CLOSED by C13_with_suffix_suffix, C13_with_suffix_suffix_general, C13_with_suffix_decoded (C13More.lean), see
     C13_headline_with_suffix_suffix, C13_headline_with_suffix_suffix_general, C13_headline_with_suffix_decoded
     (C13HeadlineMore.lean).  Proved: for x = "." ++ y with y non-empty, without '.' and without lone surrogates,
@@ -252,12 +271,56 @@ GAPS:
     Proved: joinpath(a₁, …, aₙ) = joinpath(a₁).joinpath(a₂)…joinpath(aₙ) as values (errors included) for n ≥ 1 in
     either `encoded` mode, guarded by "under an authority no '..' segment in the old path or in any argument but
     the last"; the failing case `u / "x//b"` ≠ joinpath("x/", "b") now has its counterexample theorem.
-    Remains as before: the guard is needed — FALSE when an argument climbs above the root
-    (C13_headline_joinpath_assoc_fails_for; exact two-argument guard `hroot` in C13_joinpath_assoc);
-    u / 'a/b' = joinpath(a, b) needs `a` non-empty and not ending in '/'.
+    FURTHER PARTLY CLOSED (TWO arguments, `encoded=False`) by C13_joinpath_two_eq_truediv_gen, C13_joinpath_plain,
+    C13_joinpath_empty_first, C13_joinpath_slash_terminated, C13_truediv_double_slash_explained,
+    C13_joinpath_two_eq_truediv_fails_for_surrogate, C13_joinpath_assoc_noclimb, C13_noclimb_of_no_dotdot,
+    C13_noclimb_weaker_than_no_dotdot, C13_joinpath_assoc_no_authority, C13_joinpath_assoc_first_without_dot,
+    C13_joinpath_assoc_iff, C13_joinpath_assoc_iff_hroot, C13_joinpath_assoc_hroot_necessary,
+    C13_joinpath_assoc_fails_when_root_consumed_strong, C13_joinpath_assoc_fails_when_root_lost,
+    C13_joinpath_assoc_root_lost_counterexample (C13More2.lean), see C13_headline_joinpath_two_eq_truediv,
+    C13_headline_joinpath_eq_truediv_slash, C13_headline_joinpath_empty_or_slash_terminated,
+    C13_headline_truediv_double_slash_explained, C13_headline_joinpath_two_eq_truediv_fails_for_surrogate,
+    C13_headline_joinpath_assoc_noclimb, C13_headline_noclimb_vs_no_dotdot, C13_headline_joinpath_assoc_unconditional,
+    C13_headline_joinpath_assoc_iff, C13_headline_joinpath_assoc_iff_hroot,
+    C13_headline_joinpath_assoc_fails_without_hroot, C13_headline_joinpath_assoc_fails_when_root_consumed,
+    C13_headline_joinpath_assoc_fails_when_root_lost, C13_headline_joinpath_assoc_fails_for_root_lost
+    (C13HeadlineMore3.lean).  Proved:
+    (a) joinpath(a, b) = u / pjoin(a, b) as VALUES, errors included, where pjoin(a, b) is `b` for a == "", `a + b` for
+        `a` ending in '/', `a + "/" + b` otherwise; in particular "joinpath(a, b) and u / 'a/b' are equal" as values for
+        `a` non-empty and not ending in '/'.  Hypotheses: `a`, `b` Python strings; the LAST character of `a` is not a
+        lone surrogate (needed: `URL("http://h/k").joinpath("\ud800", "x")` is `…/k/x`, `/ "\ud800/x"` is `…/k//x` —
+        C13_headline_joinpath_two_eq_truediv_fails_for_surrogate); `b` does not start with '/' (joinpath raises
+        ValueError for such a `b`, `/` on the joined text does not — computed `example` in C13HeadlineMore3.lean, no
+        named theorem).  The `//` counterexample is explained: u / (a + "//" + b) is joinpath(a + "//", b).
+    (b) joinpath(a, b) = joinpath(a).joinpath(b): always without an authority, always when quote(a) has no '.';
+        otherwise (authority, '.' in quote(a), first step succeeds) the two forms agree as values FOR EVERY `b` IF AND
+        ONLY IF `hroot` (normalising the first step leaves the root's empty segment followed by something) — so the
+        guard `hroot` of C13_joinpath_assoc is EXACT as a condition on (u, a); when it fails the separating `b` is
+        given ("./" + "../" * n + "/x"; the two failing families — root consumed, root lost — in general form, the
+        second with the computed witness `URL("http://h/k").joinpath("../../y", "..//x")`).  A checkable sufficient
+        guard "no climb" (`DotMore.climbs 0` on the first step's segment list), implied by and strictly weaker than
+        "no '..' segment".  The clause as the property states it (no guard) stays FALSE:
+        C13_headline_joinpath_assoc_fails_for, C13_headline_joinpath_assoc_fails_for_root_lost.
+    STILL OPEN: the iff is a condition on (u, a) for ALL `b`; for a FIXED pair (a, b) outside `hroot` no exact
+    condition (some `b` still agree).  For n ≥ 3 arguments only the sufficient guard of C13_headline_joinpath_nary
+    ("no '..' in the old path or in any argument but the last"), no exact one.  (a) and (b) are not stated for
+    `encoded=True` (there only C13_headline_joinpath_nary applies).
  6. "u / s equals u.joinpath(s)" is true by construction of the model (same function); the Python-level
     fact that `__truediv__` and `joinpath` share `_make_child` is an assumption of the model wiring
     (Main.lean), checked by the differential harness only.
+    PARTLY CLOSED (MODEL-LEVEL) by C13_truediv_eq_joinpath_dyn, C13_truediv_joinpath_dyn_agree_iff,
+    C13_truediv_joinpath_dyn_differ, C13_truediv_joinpath_dyn_same_typeError (C13More2.lean, over YarlModel/Dyn.lean),
+    see C13_headline_truediv_eq_joinpath_dyn, C13_headline_truediv_joinpath_dyn_agree_iff,
+    C13_headline_truediv_eq_joinpath_fails_for_list, C13_headline_truediv_joinpath_dyn_same_typeError
+    (C13HeadlineMore3.lean).  Proved in the Lean model of Python dispatch (`dynTruediv`: `__truediv__` returns
+    NotImplemented unless `isinstance(name, str)`; `dynJoinpath`: no type check, the `_make_child` loop meets the
+    object): for a `str` / `str`-subclass argument `u / s` and `u.joinpath(s)` are the same value or error (both
+    `_make_child((s,))`); for any other object both raise, and the clause is FALSE as an equality of outcomes unless
+    the loop raises TypeError: `u / ["/"]` raises TypeError, `u.joinpath(["/"])` raises ValueError, for every URL
+    (C13_headline_truediv_eq_joinpath_fails_for_list); `None`, int, bytes, URL, `object()`, `[]` give TypeError on both.
+    STILL OPEN / trusted: YarlModel/Dyn.lean is tied to CPython only by the run-time probe table (dyn probes of the
+    harness), not by proof; only the ONE-argument `joinpath(o)`, `encoded=False`, is compared with `/`; the wiring
+    assumption above is unchanged.
  7. CLOSED by C13_suffixes_spec, C13_suffix_last_decoded (C13More.lean), see C13_headline_suffixes_spec,
     C13_headline_suffix_last_decoded (C13HeadlineMore.lean).  Proved for every URL: each of `raw_suffixes` is '.'
     followed by a dot-free piece; when there are any, `raw_suffix` is the last of them; when there are none,
